@@ -1,5 +1,6 @@
 import Gpc.Model.Proto
 import Gpc.Model.Printf
+import Gpc.Model.Print
 namespace Gpc.Driver
 open Gpc.Proto Gpc.Printf
 
@@ -21,7 +22,51 @@ def parseArgs : List String → Option (List Arg)
   | [] => some []
   | t :: ts => do let a ← parseArg t; let r ← parseArgs ts; pure (a :: r)
 
-/-- `pf pf <n> <fmt> args…` and `pf ref <fmt> args…` -/
+def parseObj (t : String) : Option Obj :=
+  match t.toList with
+  | [] => none
+  | k :: r =>
+    let v := String.ofList r
+    if "cahilqb".contains k then v.toInt?.map fun x => { kind := k, val := Arg.int (x % ((2 : Int) ^ 64)).toNat }
+    else if "AHILQp".contains k then v.toNat?.map fun x => { kind := k, val := Arg.int (x % 2 ^ 64) }
+    else if k = 'f' ∨ k = 'd' then (parseHexNat v).map fun b => { kind := k, val := Arg.dbl b }
+    else if k = 't' ∨ k = 'g' ∨ k = 'F' then (parseHex v).map fun b => { kind := k, val := Arg.str b }
+    else none
+
+def parseObjs : List String → Option (List Obj)
+  | [] => some []
+  | t :: ts => do let a ← parseObj t; let r ← parseObjs ts; pure (a :: r)
+
+/-- objects of `gp_str_print` whose reserved room is smaller than their text -/
+def badEstimates (objs : List Obj) : Bool :=
+  objs.any fun o => match objText o with
+    | some t => o.kind ≠ 'F' && t.length > sizeEstimate o
+    | none => false
+
+def printStep (fn : String) (n : Nat) (objs : List Obj) : String :=
+  let fuel := objs.length + 1
+  let ln := fn.endsWith "l"
+  if fn = "bp" ∨ fn = "bpl" ∨ fn = "snp" ∨ fn = "snpl" then
+    let p0 : PF.PF := { data := List.replicate n 170, length := 0 }
+    match printObjs fuel p0 objs ln with
+    | none => "OOB"
+    | some none => "bad-op"
+    | some (some p) =>
+      match (if ln then printlnEnd p else some p) with
+      | none => "OOB-newline"
+      | some p =>
+        let w := toHex (p.data.take (min p.length p.cap))
+        if fn = "bp" ∨ fn = "bpl" then s!"r={p.length} w={w}" else s!"r={p.length} len={min p.length p.cap} w={w}"
+  else if fn = "sp" ∨ fn = "spl" ∨ fn = "fp" ∨ fn = "fpl" then
+    match printText fuel objs ln with
+    | none => "bad-op"
+    | some t =>
+      if fn = "fp" ∨ fn = "fpl" then s!"r={t.length} w={toHex t}"
+      else if badEstimates objs then "ESTIMATE-TOO-SMALL"
+      else s!"r={t.length} len={t.length} w={toHex t}"
+  else "bad-op"
+
+/-- `pf pf <n> <fmt> args…`, `pf ref <fmt> args…`, `pf print <fn> <n> objs…` -/
 def pfStep (toks : List String) : String :=
   match toks with
   | "pf" :: n :: fmt :: args =>
@@ -37,8 +82,15 @@ def pfStep (toks : List String) : String :=
         | none => "OOB-terminator"
         | some p =>
           let z := if p.length < p.cap then (if p.data[p.length]? = some 0 then "1" else "0") else "-1"
-          s!"r={p.length} w={toHex (p.data.take (min p.length p.cap))} z={z}"
+          -- the model's unbounded output must be the specification's text (this is the hypothesis of
+          -- `float_text_partial` for the floating point conversions, checked on every case)
+          let specOk := n ≥ 0 || specFormat (fmt.length + 1) fmt args == some (p.data.take (min p.length p.cap))
+          s!"r={p.length} w={toHex (p.data.take (min p.length p.cap))} z={z}" ++ (if specOk then "" else " MODEL-IS-NOT-SPEC")
     | _, _, _ => "bad-op"
+  | "print" :: fn :: n :: objs =>
+    match n.toNat?, parseObjs objs with
+    | some n, some objs => if objs.isEmpty then "bad-op" else printStep fn n objs
+    | _, _ => "bad-op"
   | "ref" :: fmt :: args =>
     match parseHex fmt, parseArgs args with
     | some fmt, some args =>
